@@ -11,7 +11,7 @@ Import-free model of IEEE-754 binary64 as used by scryer-prolog's `Number::Float
 * `encode` mirrors `dashu_base::FloatEncoding::encode` for `f64` (dashu-base 0.4.2, bit.rs) and
   `dashuIntToF64` / `dashuRatToF64` mirror `IBig::to_f64` / `RBig::to_f64` of the pinned dashu
   (dashu-int 0.4.2 convert.rs `to_f64_nontrivial`, dashu-ratio 0.4.2 convert.rs `Repr::to_f64`).
-  `dashuRatToF64` rounds twice (finding C04-1) and is kept to classify disagreements and as a witness.
+  `dashuRatToF64` rounds twice (finding C04-2; `dashuIntToF64` drops a sticky bit: finding C04-1) and is kept to classify disagreements and as a witness.
 -/
 namespace Scryer.F64
 
@@ -198,17 +198,28 @@ def dashuRatToF64 (num : Int) (den : Nat) : F64 :=
   else if num > 0 then ⟨dashuRatPos num.toNat den⟩
   else ⟨2^63 + dashuRatPos num.natAbs den⟩
 
-/-- the proposed repair (notes/findings/C04-1-fix.diff): a 59/60-bit quotient with a sticky bit, one
-    rounding in `encode`. -/
+/-- the proposed repair (notes/findings/C04-1-fix.diff, `ratio_to_f64` in src/arithmetic.rs): a quotient
+    of 63 or 64 bits with a sticky flag, ONE rounding to the 53-bit (or subnormal) significand done on
+    machine integers, result `m · 2^s` assembled exactly. No use of dashu's `encode`. -/
 def fixedRatPos (n d : Nat) : Nat :=
-  let shift : Int := (bitLen n : Int) - (bitLen d : Int) - 59
+  let shift : Int := (bitLen n : Int) - (bitLen d : Int) - 63
   let (num, den) := if shift ≥ 0 then (n, d * 2 ^ shift.toNat) else (n * 2 ^ (-shift).toNat, d)
-  if shift > 1024 then infBits
-  else if shift < -1074 - 64 then 0
+  let q := num / den                      -- 2^62 ≤ q < 2^64
+  let sticky : Bool := num % den ≠ 0
+  let etop : Int := (bitLen q : Int) + shift   -- 2^(etop-1) ≤ value < 2^etop
+  if etop > 1024 then infBits
+  else if etop < -1074 then 0
   else
-    let man := num / den
-    let sticky := if num % den ≠ 0 then 1 else 0
-    encode (man ||| sticky) shift
+    let s : Int := if etop - 53 ≥ -1074 then etop - 53 else -1074
+    let drop : Nat := (s - shift).toNat     -- ≥ 10 low bits of q are dropped
+    let m := q / 2 ^ drop
+    let rem := q % 2 ^ drop
+    let half := 2 ^ (drop - 1)
+    let up : Bool := decide (rem > half) || (decide (rem = half) && (sticky || m % 2 = 1))
+    let m' := if up then m + 1 else m
+    -- `(m' as f64) * 2^s`: exact (m' ≤ 2^53, 2^s representable), overflowing to +∞ at 2^1024
+    let bits := (s + 1074).toNat * 2^52 + m'
+    if bits ≥ infBits then infBits else bits
 
 def fixedRatToF64 (num : Int) (den : Nat) : F64 :=
   if num = 0 then posZero
